@@ -202,19 +202,23 @@ theorem callOther_life (C : Crypto) (w : World) (src dst : Bytes) (f : String) (
   · -- governance
     split at h
     · split at h
+      · cases h; exact Life.of_eq rfl
       · cases h
-      · split at h
-        · split at h
-          · cases h
-          · split at h
-            · rename_i gov' gw' gwEvs evs1 hx
-              cases h
-              exact governance_execute_life C _ _ _ _ _ _ _ _ _ _ _ hx
-            · cases h
-        · cases h
     · split at h
-      · exact Life.of_eq (govFinish_gw _ _ _ _ _ _ _ _ h)
-      · cases h
+      · split at h
+        · cases h
+        · split at h
+          · split at h
+            · cases h
+            · split at h
+              · rename_i gov' gw' gwEvs evs1 hx
+                cases h
+                exact governance_execute_life C _ _ _ _ _ _ _ _ _ _ _ hx
+              · cases h
+          · cases h
+      · split at h
+        · exact Life.of_eq (govFinish_gw _ _ _ _ _ _ _ _ h)
+        · cases h
   · cases h
 
 end Axelar.World
